@@ -109,6 +109,12 @@ func GenCatalogue() []GenLayout {
 	vgn.Gaps = []uint64{0, 0, 90000, 0}
 	add("edge", "$Number$ layout with a 1 s hole before the third file: the loader stretches segment 2 over the hole (EndTime = next StartTime)", "x_gap_nr", vgn)
 
+	tiny := FrameDurs(256, 1, 1, 1, 1, 1, 55)
+	add("edge", "60 fps video with five one-frame segments (16.7 ms, shorter than an audio frame): the fifth lies inside one audio frame, "+
+		"so its audio segment is empty", "x_tiny_seg",
+		VideoRep("V1", 15360, 256, tiny),
+		AudioRep("A48", 1024, AudioDursFollowing(tiny, 15360, 48000, 1024, 0)))
+
 	add("edge", "subtitle track 9 s, video loop 8 s: only representations of the reference's content type are compared", "x_text_longer",
 		VideoRep("V300", 90000, 3000, v2s),
 		StppRep("sub_en", 1000, UniformDurs(3, 3000)))
@@ -128,4 +134,176 @@ func GenCatalogue() []GenLayout {
 		AudioRep("A48", 1024, FrameDurs(1024, 94)))
 
 	return out
+}
+
+// ---- random admissible layouts ---------------------------------------------------------------------------------
+
+// GenRates are the (timescale, video frame duration) pairs RandGenAsset draws from.
+var GenRates = [][2]uint32{
+	{1000, 40}, {1000, 20}, {10000, 400}, {10000, 200}, {12800, 512}, {12800, 256}, {15360, 256}, {15360, 512},
+	{24000, 1000}, {24000, 1001}, {30000, 1000}, {30000, 1001}, {48000, 1920}, {60000, 1000}, {60000, 1001},
+	{90000, 3000}, {90000, 3600}, {90000, 3750}, {90000, 3003}, {90000, 1500},
+}
+
+// RandGenOpts restricts RandGenAsset.
+type RandGenOpts struct {
+	NoAudio      bool // video only
+	AudioOwnGrid bool // allow an audio segment grid unrelated to the video grid (default: audio follows the video grid)
+	Text         bool // allow an stpp representation (same grid as the video)
+	Thumbs       bool // allow thumbnails (uniform layouts only)
+	MaxSegFrames int  // upper bound of video frames per segment (default 120)
+	MinSegFrames int  // lower bound of video frames per segment (default 5; 1 gives segments shorter than an audio frame)
+}
+
+type intn interface{ Intn(n int) int }
+
+func gcd64(a, b uint64) uint64 {
+	for b != 0 {
+		a, b = b, a%b
+	}
+	return a
+}
+
+// RandGenAsset draws a layout that the admission rule accepts by construction: N = 1..7 segments, uniform /
+// alternating / irregular segment lengths (sub-second to a few seconds), a (timescale, frame duration) pair
+// from GenRates, loop a whole number of ms; optionally a second video representation on another timescale with
+// exactly the same duration, audio (AAC or AC-3) following the video grid with a loop up to 3 frames
+// shorter/longer (or on its own grid), stpp, thumbnails; $Number$ or SegmentTimeline/$Time$ VoD manifest.
+// rng is *math/rand.Rand (or anything with Intn).
+func RandGenAsset(rng intn, name string, o RandGenOpts) GenAsset {
+	maxF := o.MaxSegFrames
+	if maxF <= 0 {
+		maxF = 120
+	}
+	minF := o.MinSegFrames
+	if minF <= 0 {
+		minF = 5
+	}
+	if maxF < minF {
+		maxF = minF
+	}
+	rate := GenRates[rng.Intn(len(GenRates))]
+	ts, sd := rate[0], rate[1]
+	// q: the number of frames must be a multiple of q for the loop to be a whole number of ms
+	q := int(uint64(ts) / gcd64(uint64(ts), uint64(sd)*1000))
+	n := 1 + rng.Intn(7)
+	frames := make([]int, n)
+	shape := rng.Intn(3)
+	switch shape {
+	case 0: // uniform
+		f := 0
+		for try := 0; try < 60; try++ {
+			c := minF + rng.Intn(maxF-minF+1)
+			if (c*n)%q == 0 {
+				f = c
+				break
+			}
+		}
+		if f == 0 {
+			f = q * (1 + rng.Intn(3))
+		}
+		for i := range frames {
+			frames[i] = f
+		}
+	case 1: // alternating a, b, a, b ...; the last one absorbs the ms condition
+		a, b := minF+rng.Intn(maxF-minF+1), minF+rng.Intn(maxF-minF+1)
+		for i := range frames {
+			frames[i] = a
+			if i%2 == 1 {
+				frames[i] = b
+			}
+		}
+	default:
+		for i := range frames {
+			frames[i] = minF + rng.Intn(maxF-minF+1)
+		}
+	}
+	tot := 0
+	for _, f := range frames {
+		tot += f
+	}
+	frames[n-1] += (q - tot%q) % q
+	durs := FrameDurs(sd, frames...)
+	timeline := rng.Intn(2) == 0
+	v := VideoRep("V1", ts, sd, durs)
+	v.TimelineMPD = timeline
+	v.CompactTrun = rng.Intn(4) == 0
+	v.Frags = 1 + rng.Intn(3)
+	if !timeline && rng.Intn(3) == 0 {
+		v.StartNumber = 1 + rng.Intn(20)
+	}
+	a := GenAsset{Name: name, Reps: []GenRep{v}}
+	var loop uint64
+	for _, d := range durs {
+		loop += d
+	}
+	if rng.Intn(3) == 0 { // second video representation, other timescale, identical duration if expressible
+		r2 := GenRates[rng.Intn(len(GenRates))]
+		ts2, sd2 := uint64(r2[0]), uint64(r2[1])
+		if loop*ts2%uint64(ts) == 0 && (loop*ts2/uint64(ts))%sd2 == 0 {
+			totF := int(loop * ts2 / uint64(ts) / sd2)
+			n2 := 1 + rng.Intn(7)
+			if n2 > totF {
+				n2 = totF
+			}
+			fr := make([]int, n2)
+			rest := totF - n2
+			for i := range fr {
+				fr[i] = 1
+				if i == n2-1 {
+					fr[i] += rest
+					break
+				}
+				x := rng.Intn(2*(rest/(n2-i)) + 1)
+				if x > rest {
+					x = rest
+				}
+				fr[i] += x
+				rest -= x
+			}
+			v2 := VideoRep("V2", r2[0], r2[1], FrameDurs(r2[1], fr...))
+			v2.TimelineMPD = timeline
+			a.Reps = append(a.Reps, v2)
+		}
+	}
+	if !o.NoAudio && rng.Intn(5) != 0 {
+		fd := uint32(1024)
+		if rng.Intn(4) == 0 {
+			fd = 1536
+		}
+		delta := rng.Intn(7) - 3
+		ad := AudioDursFollowing(durs, ts, 48000, fd, delta)
+		if o.AudioOwnGrid && rng.Intn(3) == 0 {
+			var totA uint64
+			for _, d := range ad {
+				totA += d
+			}
+			totF := int(totA / uint64(fd))
+			m := 1 + rng.Intn(n+1)
+			if m > totF {
+				m = totF
+			}
+			fr := make([]int, m)
+			for i := range fr {
+				fr[i] = totF / m
+			}
+			fr[m-1] += totF - totF/m*m
+			ad = FrameDurs(fd, fr...)
+		}
+		au := AudioRep("A1", fd, ad)
+		au.TimelineMPD = timeline
+		au.StartNumber = v.StartNumber
+		au.CompactTrun = rng.Intn(4) == 0
+		a.Reps = append(a.Reps, au)
+	}
+	if o.Text && rng.Intn(3) == 0 {
+		tx := StppRep("T1", ts, durs)
+		tx.TimelineMPD = timeline
+		tx.StartNumber = v.StartNumber
+		a.Reps = append(a.Reps, tx)
+	}
+	if o.Thumbs && shape == 0 && frames[n-1] == frames[0] && rng.Intn(3) == 0 {
+		a.Reps = append(a.Reps, ThumbsRep("thumbs", ts, n, durs[0]))
+	}
+	return a
 }
